@@ -3,7 +3,7 @@
 Oracle (from the statement of C07, nothing else): for an input string `abbr`, a supported syntax and an
 option set, `emmet.expand(abbr, config)`
 
-  * terminates                      -- stand-in: a 5 s wall-clock alarm per call (a normal call takes < 1 ms);
+  * terminates                      -- stand-in: an alarm after 5 s of CPU time per call (a normal call takes < 1 ms);
   * returns a `str`, or raises `emmet.scanner.ScannerException` or
     `emmet.token_scanner.TokenScannerException` (isinstance);
   * the exception's `.pos`, when it is not None, is an int with 0 <= pos <= len(abbr);
@@ -30,7 +30,7 @@ from .common import Clause, NPROC, chunked
 from .c07_corpus import MARKUP as CORPUS_MARKUP, STYLESHEET as CORPUS_STYLESHEET
 
 PER_CLASS = 3          # reported inputs per classification and clause
-TIMEOUT = 5.0          # seconds per expand() call
+TIMEOUT = 5.0          # seconds of CPU time per expand() call
 
 # ------------------------------------------------------------------------------------------ alphabets
 # markup: one lower-case letter, one digit, every operator / bracket / quote / special character of the markup
@@ -207,14 +207,15 @@ def _call(abbr, cfg):
     from emmet import expand
     from emmet.scanner import ScannerException
     from emmet.token_scanner import TokenScannerException
-    old = signal.signal(signal.SIGALRM, _alarm)
-    signal.setitimer(signal.ITIMER_REAL, TIMEOUT)
+    # CPU-time alarm (ITIMER_VIRTUAL counts this process's user time): a loaded machine cannot cause a false "timeout"
+    old = signal.signal(signal.SIGVTALRM, _alarm)
+    signal.setitimer(signal.ITIMER_VIRTUAL, TIMEOUT)
     try:
         try:
             r = expand(abbr, cfg)
         finally:
-            signal.setitimer(signal.ITIMER_REAL, 0)
-            signal.signal(signal.SIGALRM, old)
+            signal.setitimer(signal.ITIMER_VIRTUAL, 0)
+            signal.signal(signal.SIGVTALRM, old)
     except (ScannerException, TokenScannerException) as e:
         pos = getattr(e, 'pos', None)
         if pos is not None and not (isinstance(pos, int) and not isinstance(pos, bool) and 0 <= pos <= len(abbr)):
@@ -222,7 +223,7 @@ def _call(abbr, cfg):
                     'reported pos=%r outside 0..%d' % (pos, len(abbr)))
         return None
     except _Timeout as e:
-        return ('Timeout@%s' % _innermost_emmet_frame(e.__traceback__), 'no result after %.0f s' % TIMEOUT)
+        return ('Timeout@%s' % _innermost_emmet_frame(e.__traceback__), 'no result after %.0f s of CPU time' % TIMEOUT)
     except RecursionError as e:
         return ('RecursionError@expand', 'maximum recursion depth exceeded')
     except Exception as e:
